@@ -139,6 +139,24 @@ func (fr *Frame) localByName(n string, ec *EvalCtx) (Val, bool) {
 			}
 		}
 	}
+	if ec.loop == nil && ec.at != nil && n == "idx" {
+		// site clauses: the innermost loop containing the call site
+		var best *loopInfo
+		for _, li := range fr.loops {
+			if li.body[ec.at.Block()] && (best == nil || len(li.body) < len(best.body)) {
+				best = li
+			}
+		}
+		if best != nil {
+			for _, in := range best.head.Instrs {
+				if phi, ok := in.(*ssa.Phi); ok && phi.Comment == "rangeindex" {
+					if v, ok := fr.vals[phi]; ok {
+						return Val{T: fmt.Sprintf("(+ %s 1)", v.T), S: SInt, G: phi.Type()}, true
+					}
+				}
+			}
+		}
+	}
 	if ec.loop != nil {
 		if n == "idx" { // number of completed iterations of a range-over-slice loop
 			for phi := range ec.loop.phiHavoc {
@@ -928,8 +946,15 @@ func (ec *EvalCtx) evalCall(x *ECall) Val {
 			ec.fail("global() needs a frame")
 		}
 		return fr.val(g)
-	case "oldmem_unchanged": // every pre-existing Go memory location holds its entry value
-		return Val{T: ec.memFrame(ec.old, ec.mem), S: SBool}
+	case "oldmem_unchanged": // every pre-existing Go memory location (and model row of a pre-existing object) holds its entry value
+		return Val{T: ec.memFrame(ec.old, ec.mem, true), S: SBool}
+	case "gomem_unchanged": // Go memory only (heap cells and maps) at pre-existing locations is as in the pre-state
+		return Val{T: ec.memFrame(ec.old, ec.mem, false), S: SBool}
+	case "gomem_unchanged_in_loop": // ... as at loop entry
+		if ec.loopEntry == nil {
+			ec.fail("gomem_unchanged_in_loop() only inside loop invariants")
+		}
+		return Val{T: ec.memFrame(ec.loopEntry, ec.mem, false), S: SBool}
 	case "mapkeys": // key set of a Go map
 		v := ec.eval(x.Args[0])
 		if v.G != nil {
@@ -1092,18 +1117,31 @@ func (ex *Exec) resolveType(s string) types.Type {
 }
 
 // memFrame: all Go-memory arrays agree between a and b on locations that existed at function entry.
-func (ec *EvalCtx) memFrame(a, b *MemState) string {
+func (ec *EvalCtx) memFrame(a, b *MemState, withModels bool) string {
 	ex := ec.ex
 	if a == nil || b == nil {
 		ec.fail("oldmem_unchanged needs an entry state")
 	}
-	if a.ep != b.ep {
-		return "false"
-	}
+	seen := map[string]bool{}
 	var ks []string
-	for k := range b.arrays {
-		if strings.HasPrefix(k, "M_") || strings.HasPrefix(k, "F_") {
+	for k := range ex.arrSorts { // all heap-cell classes known to the engine (pre-registered at start)
+		if strings.HasPrefix(k, "M_") {
+			seen[k] = true
 			ks = append(ks, k)
+		}
+	}
+	for _, m := range []*MemState{a, b} {
+		for k := range m.arrays {
+			if seen[k] {
+				continue
+			}
+			if strings.HasPrefix(k, "M_") || (withModels && strings.HasPrefix(k, "F_")) {
+				if md := ex.S.Models[strings.TrimPrefix(k, "F_")]; strings.HasPrefix(k, "F_") && (md == nil || md.Ghost || len(md.Params) == 0) {
+					continue
+				}
+				seen[k] = true
+				ks = append(ks, k)
+			}
 		}
 	}
 	sort.Strings(ks)
